@@ -121,6 +121,10 @@ def state_eq(I, a, b, memo=None):
     return I.eq(a, b)
 
 
+def _result_view(a):
+    return [a.slice[0]] if isinstance(a, PProd) else a
+
+
 def describe(v, depth=0):
     """printable rendering of a symbolic value for reports"""
     if depth > 6:
@@ -244,7 +248,12 @@ class Verifier:
                 rec.update(kind="spec-raise", goal=False, detail="function returns where the reference raises %s" % e2.name)
                 return rec
             g1 = state_eq(I, result, exp)
-            g2 = state_eq(I, list(args), argsB)
+            if getattr(C.cls, "observable", None) == "result":
+                # grammar action: PLY pops the right-hand-side symbols after the reduction, so the
+                # observable post-state is self and p[0] (with everything reachable from it)
+                g2 = state_eq(I, [_result_view(a) for a in args], [_result_view(a) for a in argsB])
+            else:
+                g2 = state_eq(I, list(args), argsB)
             goals += [g1, g2]
             if g1 is False or g2 is False:
                 rec["detail"] = dict(result=describe(result), expected=describe(exp), post=describe(list(args)), post_expected=describe(argsB))
